@@ -110,7 +110,10 @@ def make(t: int, c: tuple):
 
 class Table:
     """Concretisation table: symbol <-> concrete value (per type), symbol <-> text, symbol <-> UUID."""
-    def __init__(self) -> None:
+    def __init__(self, dec6: bool = False) -> None:
+        # dec6: numbers of the float-valued types are identified at six decimals, which is what the
+        # property demands of the text encodings (used by the random tier for KeyValues2 cases)
+        self.dec6 = dec6
         self.val: dict[str, tuple[int, tuple]] = {}     # symbol -> (type, canonical)
         self.rev: dict[tuple, str] = {}                 # (type, canonical) -> symbol
         self.text: dict[str, str] = {}                  # text symbol -> str
@@ -119,9 +122,19 @@ class Table:
         self.urev: dict[uuidlib.UUID, str] = {}
         self.fresh = 0
 
+    def key(self, t: int, c: tuple) -> tuple:
+        """The form under which values are identified with symbols."""
+        if self.dec6 and t in (T_FLOAT, T_VEC2, T_VEC3, T_VEC4, T_ANGLE, T_QUAT):
+            out = []
+            for h in c[1:]:
+                txt = '%.6f' % float.fromhex(h)
+                out.append('0.000000' if txt == '-0.000000' else txt)
+            return (c[0],) + tuple(out)
+        return c
+
     def add_val(self, sym: str, t: int, c: tuple) -> None:
         self.val[sym] = (t, c)
-        self.rev.setdefault((t, c), sym)
+        self.rev.setdefault((t, self.key(t, c)), sym)
         if t == T_STRING:
             self.add_text(sym, c[1])
 
@@ -137,7 +150,7 @@ class Table:
         c = canon(t, v)
         if t == T_STRING:
             return self.sym_text(c[1])
-        return self.rev.get((t, c)) or '?' + repr(c)
+        return self.rev.get((t, self.key(t, c))) or '?' + repr(c)
 
     def sym_text(self, s: str) -> str:
         return self.trev.get(s) or '?' + repr(s)
@@ -156,11 +169,12 @@ class Table:
             'val': {s: [t, list(c)] for s, (t, c) in self.val.items() if s in syms},
             'text': {s: x for s, x in self.text.items() if s in syms},
             'uuid': {s: u.hex for s, u in self.uid.items() if s in syms},
+            'dec6': self.dec6,
         }
 
     @classmethod
     def load(cls, d: dict) -> 'Table':
-        tb = cls()
+        tb = cls(d.get('dec6', False))
         for s, (t, c) in d['val'].items():
             tb.add_val(s, t, tuple(c))
         for s, x in d['text'].items():
@@ -689,7 +703,8 @@ def random_value(rng: random.Random, t: int, kind: str) -> tuple:
         if kind == 'bin' and rng.random() < 0.5:
             return struct.unpack('<f', struct.pack('<f', rng.uniform(-1e6, 1e6)))[0]
         if kind == 'kv2' and rng.random() < 0.5:
-            return float('%.6f' % rng.uniform(-5000, 5000))
+            # more digits than the text keeps, at least 0.2e-6 away from a rounding tie
+            return rng.randint(-5 * 10 ** 9, 5 * 10 ** 9) / 1e6 + rng.uniform(-0.3e-6, 0.3e-6)
         return rng.randint(-2 ** 20, 2 ** 20) / 64.0
     if t == T_INT:
         return ('i', rng.choice([0, 1, -1, 2147483647, -2147483648, rng.randint(-2 ** 31, 2 ** 31 - 1)]))
@@ -727,7 +742,7 @@ def random_cases(out: hlib.RecWriter, rng: random.Random, n_cases: int, stats: d
         uni = rng.choice(['ascii', 'ascii', 'format', 'silent'])
         # at most one feature of a known finding per case, and none in 70 % of them
         risk = rng.choice(['none'] * 7 + ['stub', 'scalar14', 'na_strarr', 'na_type', 'esc_aname'])
-        tb = Table()
+        tb = Table(dec6=enc['kind'] == 'kv2')
         tb.add_text('name', 'name')      # the binary string table always holds this word
         counter = [0]
 
@@ -742,8 +757,9 @@ def random_cases(out: hlib.RecWriter, rng: random.Random, n_cases: int, stats: d
         def val_sym(t: int, c: tuple) -> str:
             if t == T_STRING:
                 return text_sym(c[1])
-            if (t, c) in tb.rev:
-                return tb.rev[(t, c)]
+            k = (t, tb.key(t, c))
+            if k in tb.rev:
+                return tb.rev[k]
             counter[0] += 1
             sym = f'v{counter[0]}'
             tb.add_val(sym, t, c)
@@ -919,7 +935,7 @@ def main() -> None:
         out = hlib.RecWriter(sys.argv[3])
         if rec['k'] == 'rt':
             tb = Table.load(rec['conc']) if 'conc' in rec else model_table(rec.get('seed', 0))
-            new = round_trip(build_direct(rec['g'], tb), rec['g'], rec['enc'], rec['uni'], tb, rec['sig'].get('src', 'replay'))
+            new = round_trip(build_direct(rec['g'], tb), rec['g'], rec['enc'], rec['uni'], tb, rp.get('src', 'replay'))
             out.write(new)
         elif rec['k'] == 'build':
             tb = model_table(rec.get('seed', 0))
@@ -933,7 +949,8 @@ def main() -> None:
                 w.apply(a)
             pre = w.project()
             w.apply(rec['hist'][-1])
-            out.write({'k': 'build', 'pre': pre, 'a': rec['a'], 'post': w.project(), 'sig': rec['sig']})
+            out.write({'k': 'build', 'pre': pre, 'a': rec['a'], 'post': w.project(),
+                       'sig': {'kind': 'build', 'action': rec['a']['op'], 'src': 'replay'}})
         else:
             out.write(kv1_record(rec['t'], 'replay', None))
     else:
